@@ -428,3 +428,82 @@ def f3_resolver_shape(ctx: Ctx) -> None:
         (ctx.ok if not dep else ctx.bad)(R, h, a, f'{role} is decided from the current element alone' if not dep else
                                          f'{role} is only set when another flag was already seen: whether a mix is detected depends on the order of the elements '
                                          '(e.g. a big int before the first float is missed and silently becomes a float)', key=f'prepare:flag-independent:{role}')
+
+
+def f1_resolver_operand(ctx: Ctx) -> None:
+    R = 'F1.dtype-captured-from-stored-value'
+    ctx.rule(R, 'per path (symbolic store): where a dtype variable is captured from a value (`d = v.dtype` / `d = dtype_from_element(v)`), handed to resolve_dtype, and '
+             'that same local `v` (or a selection of it) is later stored into the array cast with the resolved dtype, `v` still denotes at the store what it denoted at '
+             'the capture: the dtype was not taken before the value was reindexed / converted / filled', floor=4)
+    from sfa.symenv import SymEnv
+    prog = ctx.prog
+    n = 0
+    for f in prog.top_funcs():
+        if f.module.short in SKIP_MODULES:
+            continue
+        res_calls = [c for c in ast.walk(f.node) if isinstance(c, ast.Call) and call_name(c) == 'resolve_dtype']
+        if not res_calls:
+            continue
+        # dtype variables handed to the resolver, and the value local each is captured from
+        captured: tp.Dict[str, tp.Set[str]] = {}
+        for c in res_calls:
+            for a in c.args:
+                if isinstance(a, ast.Name):
+                    for d in ast.walk(f.node):
+                        if isinstance(d, ast.Assign) and len(d.targets) == 1 and isinstance(d.targets[0], ast.Name) and d.targets[0].id == a.id:
+                            v = d.value
+                            if isinstance(v, ast.Attribute) and v.attr == 'dtype' and isinstance(v.value, ast.Name):
+                                captured.setdefault(a.id, set()).add(v.value.id)
+                            elif isinstance(v, ast.Call) and call_name(v) == 'dtype_from_element' and v.args and isinstance(v.args[0], ast.Name):
+                                captured.setdefault(a.id, set()).add(v.args[0].id)
+        if not captured:
+            continue
+        vnames = set().union(*captured.values())
+        results = set()
+        for a in ast.walk(f.node):
+            if isinstance(a, ast.Assign) and isinstance(a.targets[0], ast.Name) and isinstance(a.value, ast.Call) and isinstance(a.value.func, ast.Attribute) \
+                    and a.value.func.attr in ('astype', 'copy'):
+                results.add(a.targets[0].id)
+
+        def base_name(e: ast.expr) -> tp.Optional[str]:
+            while isinstance(e, ast.Subscript):
+                e = e.value
+            return e.id if isinstance(e, ast.Name) else None
+        stores = [a for a in ast.walk(f.node) if isinstance(a, ast.Assign) and isinstance(a.targets[0], ast.Subscript) and isinstance(a.targets[0].value, ast.Name)
+                  and a.targets[0].value.id in results and base_name(a.value) in vnames]
+        if not stores:
+            continue
+        ids = {id(s) for s in stores}
+        tracked = set(captured) | vnames
+        for _ in range(3):      # whatever the value is rebuilt from (fill values, keys) is followed too
+            for a in ast.walk(f.node):
+                if isinstance(a, (ast.Assign, ast.AnnAssign)) and a.value is not None:
+                    tg = a.targets if isinstance(a, ast.Assign) else [a.target]
+                    if any(isinstance(x, ast.Name) and x.id in tracked for t in tg for x in ast.walk(t)):
+                        tracked |= {x.id for x in ast.walk(a.value) if isinstance(x, ast.Name)}
+        se = SymEnv(f.node, watch=lambda x: id(x) in ids, max_worlds=512, track=tracked, max_len=1500, keep_fact=lambda t: False).run()
+        for s_ in stores:
+            v = base_name(s_.value)
+            dvars = [d for d, srcs in captured.items() if v in srcs]
+            for w in sorted(se.at(s_)):
+                env = dict(w[0])
+                vt = env.get(v, v)
+                for d in dvars:
+                    dt = env.get(d)
+                    if dt is None:
+                        continue        # the dtype variable is not bound on this path
+                    n += 1
+                    good = dt in (f'{vt}.dtype', f'dtype_from_element({vt})')
+                    # accepted idiom (Series.fillna): the value is reindexed with fill_value=dtype_to_fill_value(<the captured dtype>), a filler of that
+                    # dtype's own kind, so the reindexed array keeps the captured dtype
+                    if not good and f'fill_value=dtype_to_fill_value({dt})' in vt and vt.count('reindex') == 1:
+                        good = True
+                    # a dtype captured from another local on this path (an element branch next to an array branch) is not this instance
+                    if not good and not (dt.endswith('.dtype') or dt.startswith('dtype_from_element(')):
+                        n -= 1
+                        continue
+                    key = f'{f.name}:{d}<-{v}'
+                    (ctx.ok if good else ctx.bad)(R, f, s_, f'`{d}` is the dtype of what `{v}` denotes at the store' if good else
+                                                  f'`{d}` was captured as `{dt[:60]}` but at the store `{v}` denotes `{vt[:70]}`: the dtype handed to the resolver belongs to the value '
+                                                  'before it was rebuilt, so the stored elements are cast into a dtype resolved for other values', key=key)
+    ctx.require(n >= 4, 'dtype captures paired with a later store of the same local')
